@@ -1,6 +1,773 @@
 package main
 
-// func.go — translation of loop-free decision functions (filled in with the C15/C18 work).
+// func.go — translation of loop-free decision functions into Coq expressions by symbolic
+// execution of the function body.
+//
+// Subset:
+//   statements : return; if/else (with optional init assignment); switch (tag or tagless, no
+//                fallthrough); =, :=, var; nested blocks.  Anything else (loops, go, defer, channel
+//                ops, expression statements) is a translation failure.
+//   expressions: constants (anything the type checker folds, including foreign named constants);
+//                parameters and locals; field selections on parameters/receiver (each distinct
+//                selection path becomes a parameter of the Coq definition, e.g. cfg.CheckInterval
+//                -> cfg_CheckInterval); + - * / % on integers (unsigned types wrap mod 2^w
+//                explicitly, signed are unbounded Z: recorded in the manifest); comparisons;
+//                && || !; integer conversions; x == nil / x != nil on pointers and interfaces
+//                (-> boolean parameter x_isnil); composite literals of structs (-> tuple in field
+//                order of the literal); package-level error variables and errors.New/fmt.Errorf
+//                (-> Some "<name>"), nil error (-> None); any other call (method on a parameter,
+//                time.Since(..), consumererror.IsPermanent(..)) -> an extra *parameter* named
+//                after the call text, listed in the manifest.
+//
+// Output: Definition <out> (params…) : <type> := <expr>.
 
-func (t *translator) doFunc(tg Target)      { fail("func targets not implemented yet: %s", tg.Func) }
-func (t *translator) doStrMethod(tg Target) { fail("strmethod targets not implemented yet: %s", tg.Func) }
+import (
+	"fmt"
+	"go/ast"
+	"go/constant"
+	"go/token"
+	"go/types"
+	"regexp"
+	"sort"
+	"strings"
+
+	"golang.org/x/tools/go/packages"
+)
+
+type sval struct {
+	kind   string // "Z" | "bool" | "string" | "err" | "tuple" | "unit"
+	expr   string
+	elems  []sval // tuple
+	gotype types.Type
+	coqty  string // explicit Coq type (inlined calls)
+}
+
+// outcome is a decision tree.
+type outcome struct {
+	ret  []sval // leaf: return
+	env  map[string]sval
+	fall bool // leaf: fell through with env
+	cond string
+	a, b *outcome
+}
+
+type ftrans struct {
+	t       *translator
+	p       *packages.Package
+	fd      *ast.FuncDecl
+	params  []string          // ordered Coq parameter names
+	ptypes  map[string]string // name -> Coq type
+	objName map[types.Object]string
+	tg      Target
+}
+
+var identRe = regexp.MustCompile(`[^A-Za-z0-9_]+`)
+
+func sanitize(s string) string {
+	s = identRe.ReplaceAllString(s, "_")
+	s = strings.Trim(s, "_")
+	if s == "" {
+		s = "x"
+	}
+	if s[0] >= '0' && s[0] <= '9' {
+		s = "x" + s
+	}
+	return s
+}
+
+func (f *ftrans) pos(n ast.Node) string { return f.p.Fset.Position(n.Pos()).String() }
+
+func (f *ftrans) addParam(name, ty string) string {
+	if _, ok := f.ptypes[name]; !ok {
+		f.params = append(f.params, name)
+		f.ptypes[name] = ty
+	}
+	return name
+}
+
+func coqKind(t types.Type) string {
+	switch u := t.Underlying().(type) {
+	case *types.Basic:
+		switch {
+		case u.Info()&types.IsBoolean != 0:
+			return "bool"
+		case u.Info()&types.IsInteger != 0:
+			return "Z"
+		case u.Info()&types.IsString != 0:
+			return "string"
+		}
+	case *types.Interface:
+		if types.Identical(t, types.Universe.Lookup("error").Type()) {
+			return "err"
+		}
+	}
+	return ""
+}
+
+func unsignedWidth(t types.Type) int {
+	b, ok := t.Underlying().(*types.Basic)
+	if !ok {
+		return 0
+	}
+	switch b.Kind() {
+	case types.Uint8:
+		return 8
+	case types.Uint16:
+		return 16
+	case types.Uint32:
+		return 32
+	case types.Uint64, types.Uint, types.Uintptr:
+		return 64
+	}
+	return 0
+}
+
+func pow2(w int) string {
+	switch w {
+	case 8:
+		return "256"
+	case 16:
+		return "65536"
+	case 32:
+		return "4294967296"
+	}
+	return "18446744073709551616"
+}
+
+func coqString(s string) string {
+	for _, r := range s {
+		if r < 32 || r > 126 {
+			fail("string constant %q contains a non-printable-ASCII character (outside the subset)", s)
+		}
+	}
+	return "\"" + strings.ReplaceAll(s, "\"", "\"\"") + "\"%string"
+}
+
+func (f *ftrans) constVal(e ast.Expr) (sval, bool) {
+	tv, ok := f.p.TypesInfo.Types[e]
+	if !ok || tv.Value == nil {
+		return sval{}, false
+	}
+	switch tv.Value.Kind() {
+	case constant.Int:
+		z, _ := constZ(tv.Value)
+		return sval{kind: "Z", expr: z, gotype: tv.Type}, true
+	case constant.Bool:
+		if constant.BoolVal(tv.Value) {
+			return sval{kind: "bool", expr: "true", gotype: tv.Type}, true
+		}
+		return sval{kind: "bool", expr: "false", gotype: tv.Type}, true
+	case constant.String:
+		return sval{kind: "string", expr: coqString(constant.StringVal(tv.Value)), gotype: tv.Type}, true
+	}
+	return sval{}, false
+}
+
+// selectorPath renders a.b.c for parameter-rooted selector chains.
+func (f *ftrans) selectorPath(e ast.Expr) (string, bool) {
+	switch x := e.(type) {
+	case *ast.Ident:
+		obj := f.p.TypesInfo.Uses[x]
+		if obj == nil {
+			obj = f.p.TypesInfo.Defs[x]
+		}
+		if n, ok := f.objName[obj]; ok {
+			return n, true
+		}
+		return "", false
+	case *ast.SelectorExpr:
+		base, ok := f.selectorPath(x.X)
+		if !ok {
+			return "", false
+		}
+		return base + "_" + x.Sel.Name, true
+	case *ast.StarExpr:
+		return f.selectorPath(x.X)
+	case *ast.ParenExpr:
+		return f.selectorPath(x.X)
+	}
+	return "", false
+}
+
+func (f *ftrans) opaque(e ast.Expr) sval {
+	tv := f.p.TypesInfo.Types[e]
+	k := coqKind(tv.Type)
+	if k != "Z" && k != "bool" {
+		fail("%s: expression %s of type %s is outside the subset", f.pos(e), types.ExprString(e), tv.Type)
+	}
+	name := f.addParam(sanitize(types.ExprString(e)), k)
+	return sval{kind: k, expr: name, gotype: tv.Type}
+}
+
+func (f *ftrans) eval(e ast.Expr, env map[string]sval) sval {
+	if v, ok := f.constVal(e); ok {
+		return v
+	}
+	switch x := e.(type) {
+	case *ast.ParenExpr:
+		return f.eval(x.X, env)
+	case *ast.Ident:
+		if x.Name == "nil" {
+			return sval{kind: "err", expr: "None"}
+		}
+		obj := f.p.TypesInfo.Uses[x]
+		if obj == nil {
+			obj = f.p.TypesInfo.Defs[x]
+		}
+		if v, ok := env[x.Name]; ok {
+			return v
+		}
+		if n, ok := f.objName[obj]; ok {
+			k := coqKind(obj.Type())
+			if k == "" {
+				fail("%s: parameter %s of type %s used as a value (outside the subset)", f.pos(e), x.Name, obj.Type())
+			}
+			f.addParam(n, map[string]string{"Z": "Z", "bool": "bool", "string": "string", "err": "option string"}[k])
+			return sval{kind: k, expr: n, gotype: obj.Type()}
+		}
+		// package-level error variable
+		if v, ok := obj.(*types.Var); ok && coqKind(v.Type()) == "err" && v.Parent() == v.Pkg().Scope() {
+			return sval{kind: "err", expr: "(Some " + coqString(v.Name()) + ")"}
+		}
+		fail("%s: identifier %s is outside the subset", f.pos(e), x.Name)
+	case *ast.SelectorExpr:
+		// package-level error var of another package, or field path on a parameter
+		if obj, ok := f.p.TypesInfo.Uses[x.Sel].(*types.Var); ok && !obj.IsField() && coqKind(obj.Type()) == "err" {
+			return sval{kind: "err", expr: "(Some " + coqString(obj.Name()) + ")"}
+		}
+		if path, ok := f.selectorPath(x); ok {
+			tv := f.p.TypesInfo.Types[e]
+			k := coqKind(tv.Type)
+			if k == "Z" || k == "bool" {
+				f.addParam(path, k)
+				return sval{kind: k, expr: path, gotype: tv.Type}
+			}
+		}
+		fail("%s: selector %s is outside the subset", f.pos(e), types.ExprString(e))
+	case *ast.UnaryExpr:
+		switch x.Op {
+		case token.NOT:
+			v := f.eval(x.X, env)
+			return sval{kind: "bool", expr: "(negb " + v.expr + ")"}
+		case token.SUB:
+			v := f.eval(x.X, env)
+			return sval{kind: "Z", expr: "(- " + v.expr + ")", gotype: v.gotype}
+		case token.AND:
+			if cl, ok := x.X.(*ast.CompositeLit); ok {
+				return f.eval(cl, env)
+			}
+		}
+		fail("%s: unary %s outside the subset", f.pos(e), x.Op)
+	case *ast.CompositeLit:
+		var elems []sval
+		var parts []string
+		for _, el := range x.Elts {
+			var ve ast.Expr = el
+			if kv, ok := el.(*ast.KeyValueExpr); ok {
+				ve = kv.Value
+			}
+			v := f.eval(ve, env)
+			elems = append(elems, v)
+			parts = append(parts, v.expr)
+		}
+		return sval{kind: "tuple", expr: "(" + strings.Join(parts, ", ") + ")", elems: elems}
+	case *ast.BinaryExpr:
+		// nil comparisons on pointers / interfaces
+		if x.Op == token.EQL || x.Op == token.NEQ {
+			isNil := func(e ast.Expr) bool { id, ok := e.(*ast.Ident); return ok && id.Name == "nil" }
+			var other ast.Expr
+			if isNil(x.Y) {
+				other = x.X
+			} else if isNil(x.X) {
+				other = x.Y
+			}
+			if other != nil {
+				if v, ok := other.(*ast.Ident); ok {
+					if sv, ok2 := env[v.Name]; ok2 && sv.kind == "err" {
+						// local error value: compare with None
+						c := "(match " + sv.expr + " with None => true | Some _ => false end)"
+						if x.Op == token.NEQ {
+							c = "(negb " + c + ")"
+						}
+						return sval{kind: "bool", expr: c}
+					}
+				}
+				path, ok := f.selectorPath(other)
+				if !ok {
+					path = sanitize(types.ExprString(other))
+				}
+				n := f.addParam(path+"_isnil", "bool")
+				if x.Op == token.NEQ {
+					return sval{kind: "bool", expr: "(negb " + n + ")"}
+				}
+				return sval{kind: "bool", expr: n}
+			}
+		}
+		a := f.eval(x.X, env)
+		b := f.eval(x.Y, env)
+		tv := f.p.TypesInfo.Types[e]
+		switch x.Op {
+		case token.LAND:
+			return sval{kind: "bool", expr: "(" + a.expr + " && " + b.expr + ")"}
+		case token.LOR:
+			return sval{kind: "bool", expr: "(" + a.expr + " || " + b.expr + ")"}
+		}
+		if a.kind == "bool" && b.kind == "bool" && (x.Op == token.EQL || x.Op == token.NEQ) {
+			c := "(Bool.eqb " + a.expr + " " + b.expr + ")"
+			if x.Op == token.NEQ {
+				c = "(negb " + c + ")"
+			}
+			return sval{kind: "bool", expr: c}
+		}
+		if a.kind != "Z" || b.kind != "Z" {
+			fail("%s: operator %s on non-integers (outside the subset)", f.pos(e), x.Op)
+		}
+		cmp := map[token.Token]string{token.LSS: "<?", token.LEQ: "<=?", token.EQL: "=?", token.GTR: ">?", token.GEQ: ">=?"}
+		if op, ok := cmp[x.Op]; ok {
+			return sval{kind: "bool", expr: "(" + a.expr + " " + op + " " + b.expr + ")"}
+		}
+		if x.Op == token.NEQ {
+			return sval{kind: "bool", expr: "(negb (" + a.expr + " =? " + b.expr + "))"}
+		}
+		w := unsignedWidth(tv.Type)
+		wrap := func(s string) string {
+			if w > 0 {
+				return "((" + s + ") mod " + pow2(w) + ")"
+			}
+			return "(" + s + ")"
+		}
+		switch x.Op {
+		case token.ADD:
+			return sval{kind: "Z", expr: wrap(a.expr + " + " + b.expr), gotype: tv.Type}
+		case token.SUB:
+			return sval{kind: "Z", expr: wrap(a.expr + " - " + b.expr), gotype: tv.Type}
+		case token.MUL:
+			return sval{kind: "Z", expr: wrap(a.expr + " * " + b.expr), gotype: tv.Type}
+		case token.QUO:
+			if w > 0 {
+				return sval{kind: "Z", expr: "(" + a.expr + " / " + b.expr + ")", gotype: tv.Type}
+			}
+			return sval{kind: "Z", expr: "(Z.quot " + a.expr + " " + b.expr + ")", gotype: tv.Type}
+		case token.REM:
+			if w > 0 {
+				return sval{kind: "Z", expr: "(" + a.expr + " mod " + b.expr + ")", gotype: tv.Type}
+			}
+			return sval{kind: "Z", expr: "(Z.rem " + a.expr + " " + b.expr + ")", gotype: tv.Type}
+		}
+		fail("%s: operator %s outside the subset", f.pos(e), x.Op)
+	case *ast.CallExpr:
+		// conversion?
+		if tvf, ok := f.p.TypesInfo.Types[x.Fun]; ok && tvf.IsType() && len(x.Args) == 1 {
+			v := f.eval(x.Args[0], env)
+			tk := coqKind(tvf.Type)
+			if v.kind == "Z" && tk == "Z" {
+				w := unsignedWidth(tvf.Type)
+				sw := 0
+				if v.gotype != nil {
+					sw = unsignedWidth(v.gotype)
+				}
+				if w > 0 && (sw == 0 || sw > w) {
+					return sval{kind: "Z", expr: "(" + v.expr + " mod " + pow2(w) + ")", gotype: tvf.Type}
+				}
+				return sval{kind: "Z", expr: v.expr, gotype: tvf.Type}
+			}
+			if v.kind == "string" { // []byte("const") or string conversions of constants
+				return sval{kind: "string", expr: v.expr, gotype: tvf.Type}
+			}
+			fail("%s: conversion %s outside the subset", f.pos(e), types.ExprString(e))
+		}
+		// errors.New / fmt.Errorf -> an error value named by position
+		if sel, ok := x.Fun.(*ast.SelectorExpr); ok {
+			if id, ok := sel.X.(*ast.Ident); ok {
+				if pn, ok := f.p.TypesInfo.Uses[id].(*types.PkgName); ok {
+					full := pn.Imported().Path() + "." + sel.Sel.Name
+					if full == "errors.New" || full == "fmt.Errorf" {
+						pos := f.p.Fset.Position(x.Pos())
+						return sval{kind: "err", expr: "(Some " + coqString(fmt.Sprintf("error_at_line_%d", pos.Line)) + ")"}
+					}
+				}
+			}
+		}
+		// call of a function of the same package whose body is in the subset: inline it
+		if id, ok := x.Fun.(*ast.Ident); ok {
+			if fn, ok := f.p.TypesInfo.Uses[id].(*types.Func); ok && fn.Pkg() == f.p.Types {
+				if callee := findFunc(f.p, fn.Name()); callee != nil && callee.Body != nil && callee.Recv == nil {
+					ienv := map[string]sval{}
+					ai := 0
+					for _, fld := range callee.Type.Params.List {
+						for _, n := range fld.Names {
+							if ai >= len(x.Args) {
+								fail("%s: variadic/short call outside the subset", f.pos(e))
+							}
+							ienv[n.Name] = f.eval(x.Args[ai], env)
+							ai++
+						}
+					}
+					saved := f.fd
+					f.fd = callee
+					o := f.exec(callee.Body.List, ienv)
+					body, ty := f.render(o, "      ")
+					f.fd = saved
+					kind := "tuple"
+					switch ty {
+					case "Z":
+						kind = "Z"
+					case "bool":
+						kind = "bool"
+					case "option string":
+						kind = "err"
+					case "string":
+						kind = "string"
+					}
+					return sval{kind: kind, expr: "(" + body + ")", coqty: ty, gotype: f.p.TypesInfo.Types[e].Type}
+				}
+			}
+		}
+		return f.opaque(e)
+	}
+	fail("%s: expression %s is outside the subset", f.pos(e), types.ExprString(e))
+	return sval{}
+}
+
+func copyEnv(env map[string]sval) map[string]sval {
+	n := make(map[string]sval, len(env))
+	for k, v := range env {
+		n[k] = v
+	}
+	return n
+}
+
+func (f *ftrans) assign(lhs ast.Expr, v sval, env map[string]sval) {
+	id, ok := lhs.(*ast.Ident)
+	if !ok {
+		fail("%s: assignment target %s outside the subset", f.pos(lhs), types.ExprString(lhs))
+	}
+	if id.Name == "_" {
+		return
+	}
+	env[id.Name] = v
+}
+
+// exec runs the statement list; every fall-through leaf continues with `rest`.
+func (f *ftrans) exec(stmts []ast.Stmt, env map[string]sval) *outcome {
+	if len(stmts) == 0 {
+		return &outcome{fall: true, env: env}
+	}
+	first := f.execStmt(stmts[0], env)
+	return f.seq(first, stmts[1:])
+}
+
+func (f *ftrans) seq(o *outcome, rest []ast.Stmt) *outcome {
+	if o.cond != "" {
+		return &outcome{cond: o.cond, a: f.seq(o.a, rest), b: f.seq(o.b, rest)}
+	}
+	if o.fall {
+		return f.exec(rest, o.env)
+	}
+	return o
+}
+
+func (f *ftrans) execStmt(s ast.Stmt, env map[string]sval) *outcome {
+	switch x := s.(type) {
+	case *ast.ReturnStmt:
+		var vs []sval
+		for _, r := range x.Results {
+			vs = append(vs, f.eval(r, env))
+		}
+		if len(x.Results) == 0 && f.fd.Type.Results != nil {
+			// named results
+			for _, fl := range f.fd.Type.Results.List {
+				for _, n := range fl.Names {
+					v, ok := env[n.Name]
+					if !ok {
+						fail("%s: bare return with unset named result %s", f.pos(s), n.Name)
+					}
+					vs = append(vs, v)
+				}
+			}
+		}
+		return &outcome{ret: vs}
+	case *ast.BlockStmt:
+		return f.exec(x.List, env)
+	case *ast.AssignStmt:
+		if len(x.Lhs) != len(x.Rhs) {
+			fail("%s: multi-value assignment outside the subset", f.pos(s))
+		}
+		if x.Tok != token.ASSIGN && x.Tok != token.DEFINE {
+			fail("%s: assignment operator %s outside the subset", f.pos(s), x.Tok)
+		}
+		e2 := copyEnv(env)
+		vals := make([]sval, len(x.Rhs))
+		for i := range x.Rhs {
+			vals[i] = f.eval(x.Rhs[i], env)
+		}
+		for i := range x.Lhs {
+			f.assign(x.Lhs[i], vals[i], e2)
+		}
+		return &outcome{fall: true, env: e2}
+	case *ast.DeclStmt:
+		gd, ok := x.Decl.(*ast.GenDecl)
+		if !ok || gd.Tok != token.VAR {
+			fail("%s: declaration outside the subset", f.pos(s))
+		}
+		e2 := copyEnv(env)
+		for _, sp := range gd.Specs {
+			vs := sp.(*ast.ValueSpec)
+			for i, n := range vs.Names {
+				if i < len(vs.Values) {
+					e2[n.Name] = f.eval(vs.Values[i], env)
+					continue
+				}
+				obj := f.p.TypesInfo.Defs[n]
+				switch coqKind(obj.Type()) {
+				case "Z":
+					e2[n.Name] = sval{kind: "Z", expr: "0", gotype: obj.Type()}
+				case "bool":
+					e2[n.Name] = sval{kind: "bool", expr: "false"}
+				case "err":
+					e2[n.Name] = sval{kind: "err", expr: "None"}
+				default:
+					fail("%s: var %s of type %s outside the subset", f.pos(s), n.Name, obj.Type())
+				}
+			}
+		}
+		return &outcome{fall: true, env: e2}
+	case *ast.IfStmt:
+		if x.Init != nil {
+			o := f.execStmt(x.Init, env)
+			if !o.fall {
+				fail("%s: if-init outside the subset", f.pos(s))
+			}
+			env = o.env
+		}
+		c := f.eval(x.Cond, env)
+		a := f.exec(x.Body.List, copyEnv(env))
+		var b *outcome
+		if x.Else != nil {
+			b = f.execStmt(x.Else, copyEnv(env))
+		} else {
+			b = &outcome{fall: true, env: env}
+		}
+		return &outcome{cond: c.expr, a: a, b: b}
+	case *ast.SwitchStmt:
+		if x.Init != nil {
+			o := f.execStmt(x.Init, env)
+			if !o.fall {
+				fail("%s: switch-init outside the subset", f.pos(s))
+			}
+			env = o.env
+		}
+		var tag *sval
+		if x.Tag != nil {
+			v := f.eval(x.Tag, env)
+			tag = &v
+		}
+		var deflt *ast.CaseClause
+		type arm struct {
+			cond string
+			body []ast.Stmt
+		}
+		var arms []arm
+		for _, cs := range x.Body.List {
+			cc := cs.(*ast.CaseClause)
+			for _, st := range cc.Body {
+				if br, ok := st.(*ast.BranchStmt); ok && br.Tok == token.FALLTHROUGH {
+					fail("%s: fallthrough outside the subset", f.pos(st))
+				}
+			}
+			if cc.List == nil {
+				deflt = cc
+				continue
+			}
+			var conds []string
+			for _, ce := range cc.List {
+				v := f.eval(ce, env)
+				if tag != nil {
+					if tag.kind != "Z" || v.kind != "Z" {
+						fail("%s: switch on non-integer outside the subset", f.pos(ce))
+					}
+					conds = append(conds, "("+tag.expr+" =? "+v.expr+")")
+				} else {
+					conds = append(conds, v.expr)
+				}
+			}
+			arms = append(arms, arm{"(" + strings.Join(conds, " || ") + ")", cc.Body})
+		}
+		var res *outcome
+		if deflt != nil {
+			res = f.exec(deflt.Body, copyEnv(env))
+		} else {
+			res = &outcome{fall: true, env: env}
+		}
+		for i := len(arms) - 1; i >= 0; i-- {
+			res = &outcome{cond: arms[i].cond, a: f.exec(arms[i].body, copyEnv(env)), b: res}
+		}
+		return res
+	case *ast.EmptyStmt:
+		return &outcome{fall: true, env: env}
+	}
+	fail("%s: statement %T is outside the subset", f.pos(s), s)
+	return nil
+}
+
+func (f *ftrans) render(o *outcome, indent string) (string, string) {
+	if o.cond != "" {
+		a, ta := f.render(o.a, indent+"  ")
+		b, tb := f.render(o.b, indent+"  ")
+		if ta != tb {
+			fail("%s: branches return different shapes (%s vs %s)", f.tg.Func, ta, tb)
+		}
+		return "if " + o.cond + "\n" + indent + "then " + a + "\n" + indent + "else " + b, ta
+	}
+	if o.fall {
+		if f.fd.Type.Results == nil || len(f.fd.Type.Results.List) == 0 {
+			return "tt", "unit"
+		}
+		fail("%s: control reaches the end of the function without return", f.tg.Func)
+	}
+	var parts, tys []string
+	for _, v := range o.ret {
+		parts = append(parts, v.expr)
+		tys = append(tys, svalType(v))
+	}
+	if len(parts) == 1 {
+		return parts[0], tys[0]
+	}
+	return "(" + strings.Join(parts, ", ") + ")", "(" + strings.Join(tys, " * ") + ")"
+}
+
+func svalType(v sval) string {
+	if v.coqty != "" {
+		return v.coqty
+	}
+	switch v.kind {
+	case "Z":
+		return "Z"
+	case "bool":
+		return "bool"
+	case "string":
+		return "string"
+	case "err":
+		return "option string"
+	case "tuple":
+		var t []string
+		for _, e := range v.elems {
+			t = append(t, svalType(e))
+		}
+		return "(" + strings.Join(t, " * ") + ")"
+	}
+	return "unit"
+}
+
+func (t *translator) doFunc(tg Target) {
+	p := t.load(tg.Pkg)
+	fd := findFunc(p, tg.Func)
+	if fd == nil || fd.Body == nil {
+		fail("func: %s not found in %s", tg.Func, tg.Pkg)
+	}
+	f := &ftrans{t: t, p: p, fd: fd, ptypes: map[string]string{}, objName: map[types.Object]string{}, tg: tg}
+	// receiver and parameters get stable names; scalar parameters become Coq parameters up front
+	// (in declaration order) so that the signature does not depend on use order.
+	reg := func(fl *ast.FieldList) {
+		if fl == nil {
+			return
+		}
+		for _, fld := range fl.List {
+			for _, n := range fld.Names {
+				obj := p.TypesInfo.Defs[n]
+				if obj == nil || n.Name == "_" {
+					continue
+				}
+				f.objName[obj] = n.Name
+				switch coqKind(obj.Type()) {
+				case "Z":
+					f.addParam(n.Name, "Z")
+				case "bool":
+					f.addParam(n.Name, "bool")
+				}
+			}
+		}
+	}
+	reg(fd.Recv)
+	reg(fd.Type.Params)
+	env := map[string]sval{}
+	o := f.exec(fd.Body.List, env)
+	body, ty := f.render(o, "    ")
+	var ps []string
+	for _, n := range f.params {
+		ps = append(ps, fmt.Sprintf("(%s : %s)", n, f.ptypes[n]))
+	}
+	fmt.Fprintf(&t.out, "(* %s.%s — parameters in order: %s *)\n", p.PkgPath, tg.Func, strings.Join(f.params, ", "))
+	fmt.Fprintf(&t.out, "Definition %s %s : %s :=\n    %s.\n\n", tg.Out, strings.Join(ps, " "), ty, body)
+	t.record(tg, p, fd.Pos(), fd.End(), []string{tg.Out}, f.params)
+}
+
+// doStrMethod: a method whose result must not depend on its receiver (C14).  Emits
+//   Definition <out>_mentions_receiver : bool   — does any identifier in the body resolve to the receiver?
+//   Definition <out>_const : option string      — the returned string constant when the body is `return <const>`
+//                                                 (possibly wrapped in a []byte conversion and followed by nil)
+func (t *translator) doStrMethod(tg Target) {
+	p := t.load(tg.Pkg)
+	fd := findFunc(p, tg.Func)
+	if fd == nil || fd.Body == nil {
+		fail("strmethod: %s not found in %s", tg.Func, tg.Pkg)
+	}
+	var recvObj types.Object
+	if fd.Recv != nil && len(fd.Recv.List) == 1 && len(fd.Recv.List[0].Names) == 1 {
+		recvObj = p.TypesInfo.Defs[fd.Recv.List[0].Names[0]]
+	}
+	mentions := false
+	ast.Inspect(fd.Body, func(n ast.Node) bool {
+		if id, ok := n.(*ast.Ident); ok && recvObj != nil && p.TypesInfo.Uses[id] == recvObj {
+			mentions = true
+		}
+		return true
+	})
+	// pointer receiver changes which values have the method: record it
+	ptrRecv := false
+	if fd.Recv != nil && len(fd.Recv.List) == 1 {
+		_, ptrRecv = fd.Recv.List[0].Type.(*ast.StarExpr)
+	}
+	cst := "None"
+	if len(fd.Body.List) == 1 {
+		if rs, ok := fd.Body.List[0].(*ast.ReturnStmt); ok && len(rs.Results) >= 1 {
+			e := rs.Results[0]
+			if call, ok := e.(*ast.CallExpr); ok && len(call.Args) == 1 {
+				if tvf, ok := p.TypesInfo.Types[call.Fun]; ok && tvf.IsType() {
+					e = call.Args[0]
+				}
+			}
+			if tv, ok := p.TypesInfo.Types[e]; ok && tv.Value != nil && tv.Value.Kind() == constant.String {
+				cst = "(Some " + coqString(constant.StringVal(tv.Value)) + ")"
+			}
+		}
+	}
+	fmt.Fprintf(&t.out, "(* %s.%s *)\n", p.PkgPath, tg.Func)
+	fmt.Fprintf(&t.out, "Definition %s_mentions_receiver : bool := %v.\n", tg.Out, mentions)
+	fmt.Fprintf(&t.out, "Definition %s_pointer_receiver : bool := %v.\n", tg.Out, ptrRecv)
+	fmt.Fprintf(&t.out, "Definition %s_const : option string := %s.\n\n", tg.Out, cst)
+	t.record(tg, p, fd.Pos(), fd.End(), []string{tg.Out + "_mentions_receiver", tg.Out + "_pointer_receiver", tg.Out + "_const"}, nil)
+}
+
+// doMethodSet: the sorted list of method names of a named type (value and pointer method sets),
+// so that a newly added method (e.g. Format) is visible to the proofs.
+func (t *translator) doMethodSet(tg Target) {
+	p := t.load(tg.Pkg)
+	obj := p.Types.Scope().Lookup(tg.Type)
+	if obj == nil {
+		fail("methodset: type %s not found in %s", tg.Type, tg.Pkg)
+	}
+	var names []string
+	ms := types.NewMethodSet(types.NewPointer(obj.Type()))
+	for i := 0; i < ms.Len(); i++ {
+		names = append(names, ms.At(i).Obj().Name())
+	}
+	sort.Strings(names)
+	var q []string
+	for _, n := range names {
+		q = append(q, coqString(n))
+	}
+	fmt.Fprintf(&t.out, "(* method set of *%s.%s *)\n", p.PkgPath, tg.Type)
+	fmt.Fprintf(&t.out, "Definition %s : list string := [%s].\n\n", tg.Out, strings.Join(q, "; "))
+	t.record(tg, p, obj.Pos(), obj.Pos(), []string{tg.Out}, nil)
+}
